@@ -254,11 +254,9 @@ pub fn gen_case(seed: u64, idx: u64, thorough: bool) -> (HistorySpec, String, bo
     };
     let spec = HistorySpec {
         name: format!("c04-{seed}-{idx}"),
-        // BTree on `id` only with address-style row ids: with stable row ids every plan that goes
-        // through the index hits the known `mask_to_offset_ranges` defect (wrong / duplicated /
-        // missing rows: "Ambiguous merge insert", "rowid not found in index", updates applied to the
-        // neighbouring row). Re-enable (`rng.bool()`) once lance-table/src/rowids.rs:409-430 is fixed.
-        stable_row_ids: if idx % 4 == 3 && std::env::var("E_CONC_STABLE_WITH_ID_INDEX").is_err() { let _ = rng.bool(); false } else { rng.bool() },
+        // (stable row ids + BTree on `id` was switched off until batch 4 fixed mask_to_offset_ranges;
+        // E_CONC_NO_STABLE_WITH_ID_INDEX=1 restores the restriction)
+        stable_row_ids: if idx % 4 == 3 && std::env::var("E_CONC_NO_STABLE_WITH_ID_INDEX").is_ok() { let _ = rng.bool(); false } else { rng.bool() },
         v2_manifest_paths: rng.chance(1, 4),
         frags,
         rows_per_frag: rpf,
@@ -316,6 +314,17 @@ pub fn check_error_classes(out: &HistoryOutcome) -> Vec<Finding> {
                 let key_index = out.spec.pre_ops.iter().any(|o| matches!(o, Op::CreateIndex { col: "id", .. }));
                 let column_rewrite_committed = out.spec.pre_ops.iter().any(|o| matches!(o, Op::MergeCol { .. }))
                     || out.results.iter().any(|x| x.result.is_ok() && matches!(x.op, Op::MergeCol { .. }));
+                if key_index
+                    && out.spec.stable_row_ids
+                    && (m.contains("rowid not found in index") || m.contains("Attempt to merge two RecordBatch with different sizes"))
+                {
+                    f.push(Finding {
+                        signature: "retried-merge_insert-through-key-index-fails:stable-row-ids".into(),
+                        what: format!("{} lost a race and its re-execution through the key index failed with {c}: {}", r.op.kind(), m.chars().take(160).collect::<String>()),
+                        detail: json!({"op": r.describe()}),
+                    });
+                    continue;
+                }
                 if m.contains("Ambiguous merge insert")
                     || (key_index && column_rewrite_committed && m.contains("Attempt to merge two RecordBatch with different sizes"))
                 {
